@@ -1,5 +1,7 @@
 (* C36 — ArraySlicer (porepy/numerics/linalg/matrix_operations.py), as repaired by the
-   commit "fix: ArraySlicer @ ArraySlicer no longer modifies the right operand in place".
+   commits "fix: ArraySlicer @ ArraySlicer no longer modifies the right operand in place"
+   and "fix: ArraySlicer keeps all pending operations when a slicer with a pending operand
+   becomes a right operand" (the pending pairs are a list, applied first-added first).
    Transcribes __init__, transpose, copy, __matmul__ (slicer / vector / 2-D array /
    sparse matrix / AdArray / scalar operands), the right-operand methods __rmatmul__,
    __rmul__, __rtruediv__, __rpow__, __radd__, __rsub__, _slice_vector, _slice_matrix.
@@ -45,7 +47,8 @@ Inductive pop := PMatmul | PMul | PDiv | PPow | PAdd | PSub.
 Inductive operand :=
 | OScalar (c : Z)
 | OMat (nc : nat) (rows : list crow)
-| OSlicer (id : nat).                                (* reference to a heap object *)
+| OSlicer (id : nat)                                 (* reference to a heap object *)
+| OAd (v : list Z) (nc : nat) (jac : list crow).     (* pp.ad.AdArray as LEFT operand *)
 
 Record slicer := mkS {
   dom : list nat;            (* _domain_indices *)
@@ -54,7 +57,7 @@ Record slicer := mkS {
   dsize : nat;               (* _domain_size *)
   onto : bool;               (* _is_onto *)
   transposed : bool;         (* _is_transposed (informational only) *)
-  pend : option (operand * pop)   (* (_pending_operand, _pending_operation) *)
+  pend : list (operand * pop)     (* _pending: (operand, operation) pairs, innermost first *)
 }.
 
 (* ------------------------------------------------------------------ __init__ *)
@@ -80,7 +83,7 @@ Definition construct (d r : option (list nat)) (rs ds : option nat) : res slicer
       | Some rsz =>
           match (match ds with Some n => Some n | None => maxp1 d' end) with
           | None => Err ValueErr
-          | Some dsz => Ok (mkS d' r' rsz dsz is_onto false None)
+          | Some dsz => Ok (mkS d' r' rsz dsz is_onto false [])
           end
       end
   end.
@@ -90,13 +93,18 @@ Definition construct (d r : option (list nat)) (rs ds : option nat) : res slicer
    domain_size=range_size); obj._is_transposed = not obj._is_transposed (of the NEW
    object, hence always True); pending operand/operation are not carried over. *)
 Definition transpose (s : slicer) : slicer :=
-  mkS (rng s) (dom s) (dsize s) (rsize s) false (negb false) None.
+  mkS (rng s) (dom s) (dsize s) (rsize s) false (negb false) [].
 
 Definition copy (s : slicer) : slicer :=
   mkS (dom s) (rng s) (rsize s) (dsize s) (onto s) (transposed s) (pend s).
 
+(* slicer._pending.append((operand, operation)) *)
 Definition with_pend (s : slicer) (o : operand) (p : pop) : slicer :=
-  mkS (dom s) (rng s) (rsize s) (dsize s) (onto s) (transposed s) (Some (o, p)).
+  mkS (dom s) (rng s) (rsize s) (dsize s) (onto s) (transposed s) (pend s ++ [(o, p)]).
+
+(* before the second repair the single pending pair was OVERWRITTEN *)
+Definition set_pend (s : slicer) (o : operand) (p : pop) : slicer :=
+  mkS (dom s) (rng s) (rsize s) (dsize s) (onto s) (transposed s) [(o, p)].
 
 (* ------------------------------------------------------------------ slicing *)
 Section Rows.
@@ -192,24 +200,36 @@ Section Apply.
   Variable ext_scalar : pop -> Z -> value -> res value.
   Variable ext_mat : pop -> nat -> list crow -> value -> res value.
 
+  Variable ext_ad : pop -> list Z -> nat -> list crow -> value -> res value.
+
+  (* one pending pair:  eval(f"operand {operation} sliced");  [ap j] is S_j.__matmul__ *)
+  Definition pend_step (ap : nat -> value -> res value) (o : operand) (p : pop) (y : value)
+    : res value :=
+    match o with
+    | OSlicer j => match p with PMatmul => ap j y | _ => Err Unmodelled end
+    | OScalar c => ext_scalar p c y
+    | OMat nc rows => ext_mat p nc rows y
+    | OAd v nc jac => ext_ad p v nc jac y
+    end.
+
+  (* for operand, operation in self._pending: sliced = eval(...) *)
+  Fixpoint run_pend (ap : nat -> value -> res value) (l : list (operand * pop)) (y : value)
+    : res value :=
+    match l with
+    | [] => Ok y
+    | (o, p) :: r => bind (pend_step ap o p y) (run_pend ap r)
+    end.
+
   (* S @ x for a non-slicer x.  A pending slicer operand is applied by a recursive
      __matmul__ call; fuel bounds the reference chain (never exhausted on heaps built by
-     the repaired code: Proofs.C36.apply_fuel_irrel). *)
+     the repaired code: Proofs.C36.apply_fuel). *)
   Fixpoint apply (fuel : nat) (h : heap) (id : nat) (x : value) : res value :=
     match fuel with
     | O => Err FuelErr
     | S f =>
         match nth_error h id with
         | None => Err Unmodelled
-        | Some s =>
-            bind (slice s x) (fun y =>
-              match pend s with
-              | None => Ok y
-              | Some (OSlicer j, PMatmul) => apply f h j y
-              | Some (OSlicer _, _) => Err Unmodelled
-              | Some (OScalar c, p) => ext_scalar p c y
-              | Some (OMat nc rows, p) => ext_mat p nc rows y
-              end)
+        | Some s => bind (slice s x) (run_pend (apply f h) (pend s))
         end
     end.
 
@@ -246,14 +266,14 @@ Section Apply.
         | None => (h, OErr Unmodelled)
         end
     | SMatSS i j =>
-        (* slicer = x.copy(); slicer._pending_operand = self; ... = "@"; return slicer *)
+        (* slicer = x.copy(); slicer._pending.append((self, "@")); return slicer *)
         match nth_error h i, nth_error h j with
         | Some _, Some sj => alloc h (with_pend (copy sj) (OSlicer i) PMatmul)
         | _, _ => (h, OErr Unmodelled)
         end
     | SROp o p j =>
-        (* slicer = self.copy(); slicer._pending_operand = other; ... = op.  A slicer as
-           left operand takes the __matmul__ route (SMatSS) or raises, never this one. *)
+        (* slicer = self.copy(); slicer._pending.append((other, op)).  A slicer as left
+           operand takes the __matmul__ route (SMatSS) or raises, never this one. *)
         match o, nth_error h j with
         | OSlicer _, _ => (h, OErr Unmodelled)
         | _, Some sj => alloc h (with_pend (copy sj) o p)
@@ -273,10 +293,17 @@ Section Apply.
                  let (h2, os) := run h1 r in (h2, o :: os)
     end.
 
-  (* The pre-fix __matmul__(ArraySlicer):  x._pending_operand = self; return x *)
+  (* The original __matmul__(ArraySlicer):  x._pending_operand = self; return x *)
   Definition matmul_ss_inplace (h : heap) (i j : nat) : heap * out :=
     match nth_error h i, nth_error h j with
-    | Some _, Some sj => (upd h j (with_pend sj (OSlicer i) PMatmul), ONew j)
+    | Some _, Some sj => (upd h j (set_pend sj (OSlicer i) PMatmul), ONew j)
+    | _, _ => (h, OErr Unmodelled)
+    end.
+
+  (* After the first repair only: copy, then OVERWRITE the single pending pair *)
+  Definition matmul_ss_overwrite (h : heap) (i j : nat) : heap * out :=
+    match nth_error h i, nth_error h j with
+    | Some _, Some sj => alloc h (set_pend (copy sj) (OSlicer i) PMatmul)
     | _, _ => (h, OErr Unmodelled)
     end.
 End Apply.
@@ -402,6 +429,33 @@ Definition ext_matZ (p : pop) (anc : nat) (arows : list crow) (y : value) : res 
   | _ => Err Unmodelled
   end.
 
+(* AdArray (v, jac) * sliced : value product, Jacobian by the product rule *)
+Definition addrow (a b : list Z) : list Z := map (fun p => (fst p + snd p)%Z) (combine a b).
+
+Definition ext_adZ (p : pop) (v : list Z) (nc : nat) (jac : list crow) (y : value) : res value :=
+  match p with
+  | PMul =>
+      match y with
+      | VVec w =>
+          if (length w =? length v) && (length jac =? length v)
+          then Ok (VAd (map (fun q => (fst q * snd q)%Z) (combine v w)) nc
+                       (map (fun q => scale_row (fst q) (snd q)) (combine w jac)))
+          else Err ValueErr
+      | VAd w nc' jw =>
+          if (length w =? length v) && (length jac =? length v) && (length jw =? length v)
+             && (nc' =? nc)
+          then Ok (VAd (map (fun q => (fst q * snd q)%Z) (combine v w)) nc
+                       (map sparsify
+                            (map (fun q => addrow (fst q) (snd q))
+                                 (combine
+                                    (map (fun q => dense_row nc (scale_row (fst q) (snd q))) (combine w jac))
+                                    (map (fun q => dense_row nc (scale_row (fst q) (snd q))) (combine v jw))))))
+          else Err ValueErr
+      | _ => Err Unmodelled
+      end
+  | _ => Err Unmodelled
+  end.
+
 (* ---------------- comparison with the implementation's output ---------------- *)
 Fixpoint eqb_zs (a b : list Z) : bool :=
   match a, b with
@@ -478,23 +532,32 @@ Definition pop_code (p : pop) : nat :=
   match p with PMatmul => 0 | PMul => 1 | PDiv => 2 | PPow => 3 | PAdd => 4 | PSub => 5 end.
 
 (* dump of one python object after the history: indices, sizes, flags and the pending
-   pair (operand kind: 0 none, 1 scalar, 2 matrix, 3 slicer + its object id) *)
+   pairs in order (operand kind: 1 scalar, 2 matrix, 3 slicer + its object id, 4 AdArray;
+   operation code) *)
 Record objdump := mkD {
   d_dom : list nat; d_rng : list nat; d_rsize : nat; d_dsize : nat;
   d_onto : bool; d_transposed : bool;
-  d_pkind : nat; d_pid : nat; d_pop : nat
+  d_pend : list (nat * nat * nat)
 }.
+
+Fixpoint eqb_pend (l : list (operand * pop)) (d : list (nat * nat * nat)) : bool :=
+  match l, d with
+  | [], [] => true
+  | (o, p) :: r, (k, id, c) :: q =>
+      (match o with
+       | OScalar _ => k =? 1
+       | OMat _ _ => k =? 2
+       | OSlicer j => (k =? 3) && (j =? id)
+       | OAd _ _ _ => k =? 4
+       end) && (pop_code p =? c) && eqb_pend r q
+  | _, _ => false
+  end.
 
 Definition eqb_obj (s : slicer) (d : objdump) : bool :=
   eqb_nats (dom s) (d_dom d) && eqb_nats (rng s) (d_rng d) &&
   (rsize s =? d_rsize d) && (dsize s =? d_dsize d) &&
   Bool.eqb (onto s) (d_onto d) && Bool.eqb (transposed s) (d_transposed d) &&
-  match pend s with
-  | None => d_pkind d =? 0
-  | Some (OScalar _, p) => (d_pkind d =? 1) && (pop_code p =? d_pop d)
-  | Some (OMat _ _, p) => (d_pkind d =? 2) && (pop_code p =? d_pop d)
-  | Some (OSlicer j, p) => (d_pkind d =? 3) && (j =? d_pid d) && (pop_code p =? d_pop d)
-  end.
+  eqb_pend (pend s) (d_pend d).
 
 Fixpoint eqb_heap (h : heap) (l : list objdump) : bool :=
   match h, l with
@@ -506,5 +569,5 @@ Fixpoint eqb_heap (h : heap) (l : list objdump) : bool :=
 (* the model reproduces the implementation on this history: every statement's outcome
    and the state of every slicer object afterwards *)
 Definition agree (strict : bool) (prog : list stmt) (outs : list out) (dump : list objdump) : bool :=
-  let (h, os) := run ext_scalarZ ext_matZ [] prog in
+  let (h, os) := run ext_scalarZ ext_matZ ext_adZ [] prog in
   eqb_outs strict os outs && eqb_heap h dump.
